@@ -194,14 +194,19 @@ theorem Rule.apply_singleton_nil (r : Rule χ) (hr : r.IsSelect) (sep : χ) :
   | remove S => by_cases h : ([] : Str χ) ∈ S <;> simp [Rule.apply, List.filter, h, joinWith]
   | map m => exact absurd hr (by simp [Rule.IsSelect])
 
-theorem keep_apply_eq_remove (S C : List (Str χ)) (h : ∀ t, t ∈ S ↔ t ∉ C) (ts : List (Str χ)) :
+/- `keep_apply_eq_remove` (hypothesis `∀ t, t ∈ S ↔ t ∉ C` over ALL strings) was
+   removed: that hypothesis is unsatisfiable for finite lists `S`, `C`
+   (`C10.no_global_complement`).  Its replacement is relative to a token list: -/
+/-- keeping `S` = removing `C` on a token list on which `C` is the complement of `S` -/
+theorem keep_apply_eq_remove_on (S C : List (Str χ)) (ts : List (Str χ))
+    (h : ∀ t ∈ ts, (t ∈ S ↔ t ∉ C)) :
     (Rule.keep S).apply ts = (Rule.remove C).apply ts := by
   simp only [Rule.apply]
   apply List.filter_congr
-  intro t _
+  intro t ht
   by_cases hs : t ∈ S
-  · have := (h t).1 hs; simp [hs, this]
-  · have : ¬ t ∉ C := fun hc => hs ((h t).2 hc)
+  · have := (h t ht).1 hs; simp [hs, this]
+  · have : ¬ t ∉ C := fun hc => hs ((h t ht).2 hc)
     simp [hs, this]
 
 theorem map_apply_eq_keep (m : List (Str χ × Str χ)) (S : List (Str χ))
@@ -500,6 +505,87 @@ theorem filterFile_idem (tab us : χ) (hne : tab ≠ us) (rc ro : Rule χ)
     · intro l hl
       obtain ⟨x, _, hx⟩ := List.mem_filterMap.1 hl
       exact (hfix x l hx).1
+
+
+/-! ### the tokens that occur in a file; rules that agree on them -/
+
+/-- the tokens of the cue column of the well-formed event lines of a file (the
+    first line is the header), in order of occurrence, with repetitions -/
+def cueTokens (tab us : χ) (lines : List (Str χ)) : List (Str χ) :=
+  lines.tail.flatMap fun l => match splitOn tab l with
+    | [c, _] => splitOn us c
+    | _ => []
+
+/-- the tokens of the outcome column of the well-formed event lines -/
+def outcomeTokens (tab us : χ) (lines : List (Str χ)) : List (Str χ) :=
+  lines.tail.flatMap fun l => match splitOn tab l with
+    | [_, o] => splitOn us o
+    | _ => []
+
+theorem mem_cueTokens (tab us : χ) (lines : List (Str χ)) (l c o : Str χ)
+    (hl : l ∈ lines.tail) (hs : splitOn tab l = [c, o]) :
+    ∀ t ∈ splitOn us c, t ∈ cueTokens tab us lines := by
+  intro t ht
+  unfold cueTokens
+  rw [List.mem_flatMap]
+  exact ⟨l, hl, by rw [hs]; exact ht⟩
+
+theorem mem_outcomeTokens (tab us : χ) (lines : List (Str χ)) (l c o : Str χ)
+    (hl : l ∈ lines.tail) (hs : splitOn tab l = [c, o]) :
+    ∀ t ∈ splitOn us o, t ∈ outcomeTokens tab us lines := by
+  intro t ht
+  unfold outcomeTokens
+  rw [List.mem_flatMap]
+  exact ⟨l, hl, by rw [hs]; exact ht⟩
+
+/-- `imap` only looks at the elements of the list -/
+theorem imap_congr {α β : Type} (f g : α → β) (xs : List α) (n : Nat)
+    (h : ∀ x ∈ xs, f x = g x) : imap f xs n = imap g xs n := by
+  by_cases hn : n = 0
+  · subst hn
+    unfold imap chunksOf
+    cases xs with
+    | nil => rfl
+    | cons x xs =>
+      -- chunk size 0: every slice is empty; both sides are the same list of empty lists
+      have : ∀ (fuel : Nat) (ys : List α), (chunksAux 0 fuel ys).flatMap (List.map f)
+          = (chunksAux 0 fuel ys).flatMap (List.map g) := by
+        intro fuel
+        induction fuel with
+        | zero => intro ys; rfl
+        | succ k ih =>
+          intro ys
+          cases ys with
+          | nil => rfl
+          | cons y ys => simp only [chunksAux, List.take_zero, List.drop_zero, List.flatMap_cons,
+              List.map_nil, List.nil_append]; exact ih (y :: ys)
+      exact this _ _
+  · rw [imap_eq_map f xs n (by omega), imap_eq_map g xs n (by omega)]
+    exact List.map_congr_left h
+
+/-- two pairs of rules that act alike on every token list that occurs in the
+    file give the same output file (or the same error) -/
+theorem filterFile_congr (tab us : χ) (rc ro rc' ro' : Rule χ) (chunk : Nat) (lines : List (Str χ))
+    (hc : ∀ l ∈ lines.tail, ∀ c o, splitOn tab l = [c, o] →
+      rc.apply (splitOn us c) = rc'.apply (splitOn us c))
+    (ho : ∀ l ∈ lines.tail, ∀ c o, splitOn tab l = [c, o] →
+      ro.apply (splitOn us o) = ro'.apply (splitOn us o)) :
+    filterFile tab us rc ro chunk lines = filterFile tab us rc' ro' chunk lines := by
+  unfold filterFile
+  cases lines with
+  | nil => rfl
+  | cons header rest =>
+    have hline : ∀ l ∈ rest, filterLine tab us rc ro l = filterLine tab us rc' ro' l := by
+      intro l hl
+      unfold filterLine
+      match hs : splitOn tab l with
+      | [] => rfl
+      | [_] => rfl
+      | [c, o] =>
+        simp only [processColumns]
+        rw [hc l hl c o hs, ho l hl c o hs]
+      | _ :: _ :: _ :: _ => rfl
+    simp only [imap_congr _ _ rest chunk hline]
 
 end Filter
 end Pyndl
